@@ -26,6 +26,9 @@ CHECKS = {
  "C11": ("translation_validation", "round-trip property-based testing: to_proto(from_proto(P)) == P over generated designs, the corpus and a parameter-space sweep",
          "Every package from generated designs (single top), the examples/built-in generators and a generated sweep of primitive / external-module parameters, spice types, port directions and literals is imported and re-exported; the result must equal the original message field by field, and the first differing field is reported.",
          "Protobuf equality; tops recovered as un-instantiated imported modules in package order; sampled."),
+ "C12": ("exploration", "differential testing across real processes: generated designs run under sampled PYTHONHASHSEED values, batch permutations and allocation histories; oracle = identical digests",
+         "Batches of generated designs and the corpus are executed by real python subprocesses with different hash seeds, orders and amounts of unrelated earlier allocation / elaboration; the SHA-256 of the deterministic package serialisation and of the spice, spectre and verilog netlists must agree across all workers.",
+         "Samples a few dozen hash seeds and histories per design: cannot show absence of hash-order dependence; generator concentrates on constructs that iterate over back-reference sets."),
  "C13": ("exploration", "property-based testing (Hypothesis) of parameter export and to_scalar against a reference encoder written from the statement",
          "Generated parameter assignments for all 21 primitives and dict/paramclass/Scalar external modules are exported with to_proto and every exported ParamValue (kind, digits, prefix, text, double bits, omission of None, VLSIR primitive name and pulse renaming) is compared with a reference encoder; to_scalar is checked on every value form.",
          "Trusts Decimal/Fraction and protobuf accessors; ambiguous strings and Decimal-typed external parameters are recorded only; sampling."),
